@@ -81,6 +81,17 @@ def make_callable(rec, kind, unsafe, alters, forbidden):
     if kind == "partial":
         p = functools.partial(rec.function(tag), 1)
         return rec.mark(p, unsafe, alters, forbidden)
+    if kind == "instance-call-marked":
+        # the markers sit on the class's __call__ method, not on the instance
+        class CM:
+            def __call__(self, *a, **k):
+                rec.ran.append(tag)
+                return "R"
+        rec.mark(CM.__call__, unsafe, alters, forbidden)
+        return CM()
+    if kind == "partial-of-marked":
+        # the markers sit on the function a functools.partial wraps
+        return functools.partial(rec.mark(rec.function(tag), unsafe, alters, forbidden), 1)
     raise AssertionError(kind)
 
 
@@ -109,11 +120,20 @@ def k_rt_gate(ctx, envs):
     from jinja2.exceptions import SecurityError
     cases = []
     for kind, unsafe, alters, forbidden, pol in itertools.product(
-            ("function", "lambda", "method", "instance", "class", "partial"), (0, 1), (0, 1), (0, 1), ("default", "overridden")):
+            ("function", "lambda", "method", "instance", "class", "partial", "instance-call-marked", "partial-of-marked"),
+            (0, 1), (0, 1), (0, 1), ("default", "overridden")):
         cases.append((kind, bool(unsafe), bool(alters), bool(forbidden), pol))
     lines = []
     for kind, u, a, f, pol in cases:
-        lines.append(f"gate {int(u)} {int(a)} 0 " + ("default" if pol == "default" else ("0" if f else "1")))
+        polarg = "default" if pol == "default" else ("0" if f else "1")
+        if pol == "overridden" and kind in ("instance-call-marked", "partial-of-marked"):
+            polarg = "1"          # the example override looks at the object itself, which carries no marker
+        if kind == "instance-call-marked":
+            lines.append(f"gate 0 0 0 {polarg} {int(u)} {int(a)}")      # markers on type(obj).__call__
+        elif kind == "partial-of-marked":
+            lines.append(f"gate 0 0 0 {polarg}")                         # the partial object itself is unmarked
+        else:
+            lines.append(f"gate {int(u)} {int(a)} 0 {polarg}")
     out = ctx.driver("sbx", lines)
     for (kind, u, a, f, pol), model in zip(cases, out):
         env = envs[(pol, "sync")][0]
@@ -133,10 +153,13 @@ def k_rt_gate(ctx, envs):
         real = ("check:1 invoke" if rec.ran else "check:0") + " | " + outcome
         case = {"kind": "gate", "callable": kind, "unsafe_callable": u, "alters_data": a, "forbidden": f, "policy": pol}
         rejected = spec_rejected(pol, u, a, f)
+        if pol == "overridden" and kind in ("instance-call-marked", "partial-of-marked"):
+            rejected = False      # the example override looks at the object itself only
         ctx.case(sample=case if rejected and kind == "method" else None, key=("gate", kind, u, a, f, pol) if rejected else None)
         ctx.count("k_rt_gate")
         if rejected and rec.ran:
-            shared.reject_once(ctx, case, f"SandboxedEnvironment.call ran a {kind} the {pol} predicate rejects", f"C18:gate:{kind}:{pol}")
+            shared.reject_once(ctx, case, f"SandboxedEnvironment.call ran a {kind} the {pol} predicate rejects",
+                               f"C18:gate:{kind}:{pol}" if kind != "partial-of-marked" else "C18:wrapped:functools.partial")
         elif real != model:
             ctx.model_mismatch("K-rt SandboxedEnvironment.call", case, model, real, None)
         else:
@@ -177,6 +200,56 @@ def k_rt_gate_format(ctx, envs):
                                    f"C18:gate-format:{name}")
             elif real != model:
                 ctx.model_mismatch("K-rt SandboxedEnvironment.call on bound format methods", case, model, real, None)
+            else:
+                ctx.validated()
+
+
+def shared_bytecode_cache(ctx):
+    """a plain and a sandboxed environment that share one bytecode cache and one loader: the sandboxed
+    environment must still gate calls (root cause: the cache key ignores the environment's code-generation
+    options — C27's recorded finding; the consequence for C18 is recorded under its own signature)"""
+    from jinja2 import DictLoader, Environment
+    from jinja2.bccache import BytecodeCache
+    from jinja2.exceptions import SecurityError
+    from jinja2.sandbox import SandboxedEnvironment
+
+    class MemCache(BytecodeCache):
+        def __init__(self):
+            self.d = {}
+
+        def load_bytecode(self, bucket):
+            if bucket.key in self.d:
+                bucket.bytecode_from_string(self.d[bucket.key])
+
+        def dump_bytecode(self, bucket):
+            self.d[bucket.key] = bucket.bytecode_to_string()
+
+    for order in ("plain-first", "sandboxed-first"):
+        for mode in ("sync", "async"):
+            bc = MemCache()
+            loader = DictLoader({"t": "{{ f() }}{% for x in [1] %}{{ g(x) }}{% endfor %}"})
+            rec = Rec()
+            f = rec.mark(rec.function("f"), unsafe=True)
+            g = rec.mark(rec.function("g"), alters=True)
+            plain = Environment(loader=loader, bytecode_cache=bc, enable_async=(mode == "async"))
+            sandboxed = SandboxedEnvironment(loader=loader, bytecode_cache=bc, enable_async=(mode == "async"))
+            outcome = "?"
+            try:
+                if order == "plain-first":
+                    plain.get_template("t").render(f=f, g=g)
+                    rec.ran.clear()
+                sandboxed.get_template("t").render(f=f, g=g)
+                outcome = "ok"
+            except SecurityError:
+                outcome = "SecurityError"
+            except Exception as e:  # noqa: BLE001
+                outcome = "exc:" + type(e).__name__
+            case = {"kind": "shared-bytecode-cache", "order": order, "mode": mode, "outcome": outcome, "ran": list(rec.ran)}
+            ctx.case(sample=case if order == "plain-first" else None, key=("bcc", order, mode))
+            ctx.count("shared_bytecode_cache")
+            if rec.ran:
+                shared.reject_once(ctx, case, "a SandboxedEnvironment that shares a bytecode cache with a plain Environment ran "
+                                              "the plain environment's code: an unsafe callable executed", "C18:shared-bytecode-cache")
             else:
                 ctx.validated()
 
@@ -234,6 +307,7 @@ def callables_under_test():
         ("u", dict(unsafe=True)), ("a", dict(alters=True)), ("fb", dict(forbidden=True)), ("s2", dict()),
         ("o.um", dict(unsafe=True)), ("d.u", dict(unsafe=True)), ("ci", dict(alters=True)),
         ("lst[0]", dict(unsafe=True, forbidden=True)), ("(o|attr('um'))", dict(unsafe=True)),
+        ("cim", dict(unsafe=True)), ("pu", dict(unsafe=True)),
     ]
 
 
@@ -258,9 +332,17 @@ def build_data(rec):
         def __call__(self, *a, **k):
             rec.ran.append("ci")
             return [1]
+    class CIM:
+        def __call__(self, *a, **k):
+            rec.ran.append("cim")
+            return [1]
+    CIM.__call__.unsafe_callable = True
+    import functools
+    pu = functools.partial(rec.mark(rec.function("pu", ret=[1]), unsafe=True))
     both = rec.mark(rec.function("lst[0]", ret=[1]), unsafe=True, forbidden=True)
     dd = rec.mark(rec.function("d.u", ret=[1]), unsafe=True)
-    return {"u": u, "a": a, "fb": fb, "s2": s2, "s": s, "o": O(), "d": {"u": dd}, "ci": CI(), "lst": [both]}
+    return {"u": u, "a": a, "fb": fb, "s2": s2, "s": s, "o": O(), "d": {"u": dd}, "ci": CI(), "lst": [both],
+            "cim": CIM(), "pu": pu}
 
 
 TAG = {"(o|attr('um'))": "o.um"}
@@ -290,6 +372,8 @@ def judge_render(ctx, envs, case):
     # under the overridden predicate a callable that only carries the default markers is allowed
     others = [t_ for t_ in rec.ran if t_ != tag and spec_rejected(pol, *{"u": (1, 0, 0), "a": (0, 1, 0), "fb": (0, 0, 1), "o.um": (1, 0, 0),
               "d.u": (1, 0, 0), "ci": (0, 1, 0), "lst[0]": (1, 0, 1)}.get(t_, (0, 0, 0)))]
+    if pol == "overridden" and c in ("cim", "pu"):
+        rejected = False
     case.update(template=src, outcome=outcome, ran=ran, rejected=rejected)
     if outcome == "exc:TemplateSyntaxError" and not rec.ran:
         case["rejected"] = False          # the shape is not a template for this callee expression
@@ -297,7 +381,7 @@ def judge_render(ctx, envs, case):
         return True
     if (rejected and ran) or others:
         shared.reject_once(ctx, case, f"a callable the {pol} predicate rejects ({c}) ran in the {mode} sandbox through shape {shape!r}",
-                           f"C18:render:{shape}:{pol}")
+                           f"C18:render:{shape}:{pol}" if c != "pu" else "C18:wrapped:functools.partial")
         return False
     # model prediction: the gate refuses with SecurityError; an accepted callable runs
     if rejected and outcome != "SecurityError":
@@ -323,22 +407,13 @@ def run(ctx):
     # T5: the current source of SandboxedEnvironment.is_safe_callable and .call, interpreted in Coq,
     # equals is_safe_callable_default / sandbox_call (check event, then invocation) for every argument
     sbx_src_tie.source_equations(ctx, ("call",))
-    # T1: shapes
-    ctx.obligations += 1
-    ctx.obligation_names.append("shape of compiler.visit_Call")
-    try:
-        facts = sbx_tables.read_source(lib.SRC)
-        bad = sbx_tables.compiler_shape_mismatches(lib.SRC, ("CodeGenerator.visit_Call",))
-        if bad:
-            ctx.broken.append("T1: source shape differs from the modelled one: " + ", ".join(bad))
-        else:
-            ctx.discharged += 1
-    except sbx_tables.TranslatorError as e:
-        ctx.broken.append(f"T1 translator does not recognise the source: {e}")
+    # regenerated routing decision table of visit_Call / visit_Getattr / visit_Getitem (what C18_calls_gated relies on)
+    sbx_src_tie.routing_table(ctx)
 
     envs = make_envs()
     k_rt_gate(ctx, envs)
     k_rt_gate_format(ctx, envs)
+    shared_bytecode_cache(ctx)
     shared.k_gen(ctx, jinja2, ctx.size(1500, 15000), ctx.size(250, 2500), "C18")
     for (c, _), shape, pol, mode in itertools.product(callables_under_test(), SHAPES, ("default", "overridden"), ("sync", "async")):
         case = {"kind": "render", "callable": c, "shape": shape, "policy": pol, "mode": mode}
